@@ -33,7 +33,8 @@ THEOREMS = [
     'Grd.search_none_iff', 'Grd.cutVector_keeps', 'Grd.compDomain_buffer',
     'Grd.compDomain_covers', 'Grd.compDomain_fromCenter',
     'Grd.seasurface_shift_node', 'Grd.seasurface_root_node',
-    'Grd.goodMg_spec', 'Grd.goodMg_sorted', 'Grd.centrePart_ok',
+    'Grd.goodMg_spec', 'Grd.goodMg_sorted', 'Grd.goodMg_halvings',
+    'Grd.centrePart_ok',
     'Grd.oaw_ok', 'Grd.oaw_post', 'Grd.oaw_none_iff',
 ]
 
